@@ -70,6 +70,15 @@ pub fn first_diff(a: &Value, b: &Value) -> Option<String> {
                     path.push_str("[len]");
                     return true;
                 }
+                // the same elements in another order (sets serialise in arbitrary order): not the difference we are
+                // looking for — typed equality has already decided whether order matters
+                let mut xs: Vec<String> = x.iter().map(|v| v.to_string()).collect();
+                let mut ys: Vec<String> = y.iter().map(|v| v.to_string()).collect();
+                xs.sort();
+                ys.sort();
+                if xs == ys {
+                    return false;
+                }
                 for (v, w) in x.iter().zip(y.iter()) {
                     let n = path.len();
                     path.push_str("[]");
@@ -91,6 +100,8 @@ pub fn first_diff(a: &Value, b: &Value) -> Option<String> {
     };
     if go(a, b, &mut p, root_parent) {
         Some(if p.is_empty() { "<root>".into() } else { p })
+    } else if a != b {
+        Some("<order of a list>".into())
     } else {
         None
     }
